@@ -534,7 +534,7 @@ class SheetGen:
                     if r.random() < 0.6:
                         node = {"t": "at", "name": r.choice(("media", "media", "MEDIA")), "prelude": r.choice(("screen", "(min-width: 600px)", "print and (max-width:20em)", "(prefers-color-scheme: dark)")), "items": [node]}
                     else:
-                        node = {"t": "at", "name": "supports", "prelude": r.choice(("(display: grid)", "not (display:flex)", "(color: red) and (margin: 0)")), "items": [node]}
+                        node = {"t": "at", "name": r.choice(("supports", "supports", "Supports")), "prelude": r.choice(("(display: grid)", "not (display:flex)", "(color: red) and (margin: 0)")), "items": [node]}
                     if r.random() < 0.3:
                         node["items"].insert(r.randrange(2), {"t": "raw", "text": r.choice(_COMMENTS)} if "comments" in self.feats else self.plain_rule())
                 out.append(node)
